@@ -19,10 +19,12 @@ import random
 
 from harness import lmfgen
 
+# (relation types are matched exactly: 'Also' / 'mero-part' / 'Antonym' / 'domain-topic' are
+# other types than the names they resemble, whatever SQL's LIKE would make of them)
 SYN_TYPES = ['hypernym', 'hyponym', 'also', 'similar', 'weird_type', 'instance_hypernym',
-             'mero_part', 'holo_part']
-SENSE_TYPES = ['antonym', 'derivation', 'also', 'weird_sense_type', 'pertainym']
-SS_TYPES = ['domain_topic', 'exemplifies', 'other']
+             'mero_part', 'holo_part', 'Also', 'mero-part']
+SENSE_TYPES = ['antonym', 'derivation', 'also', 'weird_sense_type', 'pertainym', 'Antonym']
+SS_TYPES = ['domain_topic', 'exemplifies', 'other', 'domain-topic']
 
 
 def spec(id, ver):
